@@ -1,6 +1,7 @@
 package main
 
 import (
+	"sync"
 	"fmt"
 	"sort"
 	"strings"
@@ -17,12 +18,9 @@ func init() {
 		run: func(g *Gen, c int) ([]string, []string, bool) {
 			r := g.r
 			var viol []string
-			if c == 0 && startupViolation != "" {
-				viol = append(viol, startupViolation)
-			}
 			ref := map[string]string{}
-			for _, n := range builtinNames {
-				ref[n] = builtinDecor[n]
+			for _, n := range builtinNames() {
+				ref[n] = builtinDecorF()[n]
 			}
 			for n, d := range registeredNames {
 				ref[n] = d
@@ -118,13 +116,23 @@ func init() {
 	}
 }
 
-var builtinDecor = func() map[string]string {
+var (
+	builtinDecorOnce sync.Once
+	builtinDecorMap  map[string]string
+)
+
+func builtinDecorF() map[string]string {
+	builtinDecorOnce.Do(func() { builtinDecorMap = builtinDecorInit() })
+	return builtinDecorMap
+}
+
+func builtinDecorInit() map[string]string {
 	m := map[string]string{}
-	for _, n := range builtinNames {
+	for _, n := range builtinNames() {
 		m[n] = showDecor(decoration.Named(n))
 	}
 	return m
-}()
+}
 
 // ---------- C19: style strings ----------
 
@@ -204,7 +212,7 @@ func init() {
 			for _, s := range styles {
 				have[s] = true
 			}
-			expect := append([]string{"csv", "html", "json", "markdown"}, builtinNames...)
+			expect := append([]string{"csv", "html", "json", "markdown"}, builtinNames()...)
 			for n := range registeredNames {
 				expect = append(expect, n)
 			}
